@@ -285,6 +285,18 @@ theorem save_depth_bounded (v : Val) :
   · rw [h]; omega
   · unfold deepCopyOk; rw [h]; omega
 
+/-- **restore_depth_bounded** (C16's fix c9a3442, a new bound): the size pre-pass of restore_variable / restore_object
+    refuses every text that nests deeper than MAX_SAVE_SVALUE_DEPTH - exactly the values save would refuse to write - and
+    its recursion never goes more than one level past the limit, whatever the text. -/
+theorem restore_depth_bounded (v : Val) :
+    restoreReach 0 v ≤ maxSaveDepth + 1 ∧ (restoreWalk 0 v = true ↔ v.nest ≤ maxSaveDepth) ∧
+    restoreWalk 0 v = (saveSize 0 v).isSome := by
+  have h := saveSize_isSome v 0
+  refine ⟨restoreReach_le v 0 (Nat.zero_le _), ?_, restoreWalk_eq v 0⟩
+  rw [restoreWalk_eq v 0, h]; omega
+
+example : restoreWalk 0 (valNested 24) = true ∧ restoreWalk 0 (valNested 25) = false ∧ restoreReach 0 (valNested 300) = 26 := by decide
+
 example : (saveSize 0 (valNested 24)).isSome = true ∧ (saveSize 0 (valNested 25)).isSome = false ∧
     saveReach 0 (valNested 40) = 25 := by decide
 
@@ -320,7 +332,7 @@ theorem bridge_backwardOps :
   ⟨rfl, rfl, rfl, rfl, rfl, fetchCharge_one, callbackCharge_one⟩
 
 /-- the constants of the value walks and of compose_mapping's counter -/
-theorem bridge_saveWalk : maxSaveDepth = 25 ∧ saveBoxOverhead = 5 ∧ composeDeletedBits = 32 := by decide
+theorem bridge_saveWalk : maxSaveDepth = 25 ∧ saveBoxOverhead = 5 ∧ composeDeletedBits = 32 ∧ restoreTopNesting = 2 := by decide
 
 /-! ### bridging lemmas: the literals of the model are the constants found in the source (NV/Gen/C04.lean is
     regenerated from the guard sites on every run; a changed constant breaks these obligations) -/
